@@ -76,11 +76,13 @@ func c33Scribble(b []byte) {
 	}
 }
 
+var c33DrainBuf = make([]byte, 1<<20)
+
 // c33Drain reads, with an expired deadline, everything that is still buffered for end e and
 // returns the number of bytes or a description of the first wrong byte.
 func c33Drain(c net.Conn, e, from int) (int, string) {
 	c.SetReadDeadline(time.Now().Add(-time.Second))
-	buf := make([]byte, 1<<20)
+	buf := c33DrainBuf // behaviours are replayed one at a time
 	total := 0
 	for i := 0; i < 1000; i++ {
 		n, err := c.Read(buf)
